@@ -138,7 +138,12 @@ impl Part for C15Part {
         }
     }
     fn block(&self, _t: Tier) -> u64 {
-        128
+        256
+    }
+    fn fresh_thread(&self) -> bool {
+        // no network, no select!, no entropy-dependent decisions in this rig's code path; the
+        // determinism self-test compares in-block runs with runs alone in a fresh process
+        false
     }
     fn gen(&self, seed: u64, _tier: Tier) -> Value {
         let mut r = Rng::new(seed);
